@@ -1,7 +1,7 @@
 (* C12 - the VM is total, bounded and memory-safe on every script.
    Statements only; every proof is [exact lemma]. *)
 From NG Require Import VM.Model VM.Total VM.LimitsData VM.Limits VM.Reach VM.Static VM.StaticProofs VM.RefsFlat VM.RefsFlatOps VM.RefsFlatStep
-  VM.RefsInv VM.RefsMoves VM.RefsData VM.RefsOps VM.RefsComp VM.RefsShape VM.RefsStep.
+  VM.RefsInv VM.RefsMoves VM.RefsData VM.RefsOps VM.RefsComp VM.RefsShape VM.RefsExact VM.RefsExactOps VM.RefsStep.
 Open Scope Z_scope.
 
 (* the premise on the price table generated from pkg/core/fee: every opcode costs at least one unit, except the
@@ -179,12 +179,95 @@ Theorem C12_heap_shape_monotone : forall e op p d,
 Proof. exact exec_data_shape. Qed.
 Print Assumptions C12_heap_shape_monotone.
 
-(* Exactness (the other direction) - PARTIAL.  Proved: along an execution of one script, as long as none of the
+(* ------------------------------------------------------------------------------------------------------------
+   The item accounting is exact as long as no cyclic structure was built.
+
+     acyc h            no compound of the heap is reachable from itself: a rank exists that strictly increases along every
+                       child reference (all cells of the model heap, also the ones nothing refers to any more)
+     run_acyclic n s   acyc holds in every state the first n instructions pass through, incl. s and the state reached:
+                       "no instruction ever closed a cycle" (a cycle never disappears unnoticed: it exists in some state)
+   Same scope and premise as C12_refs_never_undercount.
+   ------------------------------------------------------------------------------------------------------------ *)
+Theorem C12_refs_exact_acyclic : forall n prog sid base limit,
+  Forall (fun b => 0 <= b) prog -> run_acyclic n (init_state prog sid base limit) ->
+  match run n (init_state prog sid base limit) with
+  | Running s => reach_count s = s_refs s
+  | Halted s => reach_count s = s_refs s
+  | Faulted _ => True
+  end.
+Proof. exact refs_exact_acyclic. Qed.
+Print Assumptions C12_refs_exact_acyclic.
+
+(* the hypothesis can be decided: acycb computes ranks by relaxation and checks them *)
+Theorem C12_acyclic_check_sound : forall h, acycb h = true -> acyc h.
+Proof. exact acycb_sound. Qed.
+Print Assumptions C12_acyclic_check_sound.
+Theorem C12_run_acyclic_check_sound : forall n s, run_acyclicb n s = true -> run_acyclic n s.
+Proof. exact run_acyclicb_sound. Qed.
+Print Assumptions C12_run_acyclic_check_sound.
+
+(* non-vacuity: NEWARRAY0 DUP NEWARRAY0 DUP PUSH5 APPEND APPEND DUP PUSH0 PICKITEM DROP DUP PUSH0 NEWMAP SETITEM builds
+   [[5]], reads the inner array, then replaces it by a new Map (a newer compound stored into an older one; the inner
+   array is un-counted with its element): acyclic throughout, counter = walk = 2.  The witness of F50 is acyclic for
+   8 instructions; the 9th (SETITEM) closes the cycle m = {0: [m]}. *)
+Example C12_refs_exact_acyclic_example :
+  let s := init_state [194; 74; 194; 74; 21; 207; 207; 74; 16; 206; 69; 74; 16; 200; 208] 1%N 1 100000 in
+  run_acyclic 20 s /\
+  match run 20 s with Halted s' => reach_count s' = 2 /\ s_refs s' = 2 /\ final_stack s' = [IArr 0%nat] | _ => False end /\
+  let f50 := init_state [200; 74; 16; 194; 74; 19; 77; 207; 208; 16; 210; 17] 1%N 1 100000 in
+  run_acyclicb 8 f50 = true /\ run_acyclicb 9 f50 = false.
+Proof.
+  cbv zeta. split; [apply run_acyclicb_sound; vm_compute; reflexivity|].
+  split; vm_compute; repeat split; reflexivity.
+Qed.
+
+(* The proof: the in-degree invariant WITHOUT leaked counts ([sIk []]) is preserved by every instruction that starts on an
+   acyclic heap, and on an acyclic heap it makes the walk equal to the counter.  Banked pieces: *)
+
+(* on an acyclic heap every compound with a count > 0 is reachable from a root, the walk visits every reachable compound
+   once and completes within its fuel: walk = counter *)
+Theorem C12_refs_exact_walk : forall h refs X R,
+  G h refs [] X -> acyc h -> (forall it, In it R -> In it X) -> (forall it, In it X -> In it R) -> zlen R = zlen X ->
+  reach_from h R = refs.
+Proof. exact G_exact. Qed.
+Print Assumptions C12_refs_exact_walk.
+
+Theorem C12_refs_exact_invariant : forall s, sIk [] s -> acyc (s_heap s) -> reach_count s = s_refs s.
+Proof. exact sIk_exact. Qed.
+Print Assumptions C12_refs_exact_invariant.
+
+(* families 1-6 except SETITEM: no count is leaked on any heap, cyclic or not (basic: C12_refs_sound_basic; creation, growth,
+   readers, spreading, REMOVE) *)
+Theorem C12_refs_exact_data_noleak : forall e op p d E,
+  op <> SETITEM -> Forall (fun b => 0 <= b) p -> dI0 E d -> dres_I E (exec_data e op p d).
+Proof. exact exec_data_noleak. Qed.
+Print Assumptions C12_refs_exact_data_noleak.
+
+(* SETITEM (and with it every data instruction) started on an acyclic heap: un-counting the replaced element cannot reach
+   the container it was stored in (Remove only touches what is reachable from the removed item), so nothing is leaked *)
+Theorem C12_refs_exact_data : forall e op p d E,
+  Forall (fun b => 0 <= b) p -> acyc (d_heap d) -> dI0 E d -> dres_I E (exec_data e op p d).
+Proof. exact exec_data_E. Qed.
+Print Assumptions C12_refs_exact_data.
+
+(* family 7 (control) and every instruction: the leaked counts stay what they were *)
+Theorem C12_refs_exact_control : forall Lk cip op p s,
+  sIk Lk s -> acyc (s_heap s) -> Forall (fun b => 0 <= b) p ->
+  match exec_op no_sys cip op p s with XNext s' => sIk Lk s' | XHalt s' => sIk Lk s' | XFault => True end.
+Proof. exact exec_op_sIk_acyc. Qed.
+Print Assumptions C12_refs_exact_control.
+
+Theorem C12_refs_exact_step : forall Lk s,
+  sIk Lk s -> acyc (s_heap s) ->
+  match step s with Running s' => sIk Lk s' | Halted s' => sIk Lk s' | Faulted _ => True end.
+Proof. exact step_sIk_acyc. Qed.
+Print Assumptions C12_refs_exact_step.
+
+(* A special case proved in the first round (from any compound-free state, not only the initial one): as long as none of the
    nine compound-creating instructions (NEWARRAY0 NEWARRAY NEWARRAY_T NEWSTRUCT0 NEWSTRUCT NEWMAP PACK PACKSTRUCT PACKMAP)
    has been executed - so no Array/Struct/Map exists - the item counter is exact (= the walk) after every instruction and
    at HALT, through every other instruction incl. slots, calls, exceptions and unloading.
-   Not proved: exactness (refs = walk) once compounds exist and no cycle was ever built; there only <= is proved
-   (C12_refs_never_undercount); equality is checked on the real VM at every step of every generated execution (c12). *)
+   Subsumed for executions from the initial state by C12_refs_exact_acyclic. *)
 Theorem C12_refs_exact_flat_partial : forall n s,
   flat_inv s -> run_no_creator n s ->
   match run n s with
